@@ -532,6 +532,7 @@ type FuncContract struct {
 	Line      int
 	Lemmas    []string
 	CallAsserts map[string][]*Clause
+	RawCapacity bool
 }
 
 type SpecFunc struct {
@@ -1017,6 +1018,8 @@ func parseClause(fc *FuncContract, word, rest, file string, line int) error {
 		fc.SafetyTag = append(fc.SafetyTag, strings.Fields(rest)...)
 	case "frame":
 		fc.FrameTag = append(fc.FrameTag, strings.Fields(rest)...)
+	case "raw-capacity":
+		fc.RawCapacity = true
 	case "nosafety":
 		fc.NoSafety = true
 	default:
